@@ -25,9 +25,12 @@ P = {
     'C10': ('model_checking', 'mem::forget of a drain after every script prefix, then follow-up operations and drop: contents are live, distinct, from the original, disjoint from handed-out elements; no second destructor run', '7'),
     'C11': ('model_checking', 'panic iff documented (range/drain bounds incl. Included/Excluded(usize::MAX), swap, index); every other call returns for every argument incl. usize::MAX and capacity 0; unchanged contents after a documented panic; a process that dies or hangs is attributed to its scenario', '7'),
     'C12': ('model_checking', 'from array (all lengths 0..2N+1), from_iter, new/default/boxed: contents, destroyed prefix, ids', '7'),
+    'C13': ('model_checking', 'spec/Observers.tla: TLC proves for every pair of physical states (capacities 0..3 x 0..3 quick / 0..4 thorough, every front position, length and two-letter contents on both sides) that the segment-wise PartialEq alignment, PartialEq<[U]>, iteration order and hash feed equal the functions of the two abstract sequences; every pair is replayed on the real type (==, !=, <, <=, >, >=, partial_cmp, cmp, hash, six slice/array/reference forms, Debug under eleven formatter flag sets) and each result validated against the contract', '7'),
     'C14': ('model_checking', 'write/read/fill_buf/consume/flush from every layout with every length (write 0..2N+1, destination 0..N+2, consume 0..N+2 and usize::MAX) enumerated by TLC on the I/O family of L1, replayed on CircularBuffer<N,u8> with garbage in unoccupied bytes, plus seeded random interleavings at larger capacities; each call validated against the byte-stream clauses of the contract', '7'),
     'C16': ('model_checking', 'the C14 scenario set replayed through embedded_io and embedded_io_async trait methods (and std::io in the same build) in three builds (embedded-io, embedded-io-async, both); one contract for all families => same counts, bytes, contents; futures polled once must be Ready; a build failure of a configuration is a violation', '7'),
     'C17': ('model_checking', 'allocation counter of a counting global allocator sampled around every recorded call; contract clause allocs = 0 except boxed/to_vec', '7'),
+    'C18': ('model_checking', 'the complete scenario sets of the other checks (all behaviours without fault, all with an injected fault, the observer pairs) are replayed in a nightly build with --features unstable: every trace must be accepted by the same contract and the digest of the property-level projection (results, contents, panics, element lifecycle callbacks) of every scenario must equal that of the default build', '7'),
+    'C19': ('model_checking', 'three layers: Apalache decides the add_mod lemma and the scalar inductive step (invariant, no overflow/underflow/division by zero, indices and slice ranges in bounds, back-fill loop <= 3 iterations) for ALL capacities <= 2^64-1 symbolically (spec/WordArith.tla, spec/Shape.tla, with refuted sanity mutants); TLC checks the full mechanism at a 3-bit word where position arithmetic really wraps; the enumerated behaviours are replayed with a destructor-counting ZST on the real capacities usize::MAX, usize::MAX-1, 2^63+1, 2^63, 2^63-1, 2^32+1, 2^32, 2^32-1 with fronts near 0 and near N and validated against the length/flag/result/destructor-count clauses of the contract', '7'),
     'C20': ('model_checking', 'relocations measured from element addresses before/after each call; contract bounds per operation (<= 2, len-i for remove, len-j for drain, 0 for make_contiguous on contiguous contents)', '7'),
 }
 
